@@ -6,7 +6,9 @@ import (
 	"context"
 	"encoding/binary"
 	"fmt"
+	"os"
 	"sort"
+	"strings"
 	"sync"
 
 	"pgregory.net/rapid"
@@ -172,6 +174,8 @@ approve:
 int 1
 return
 `
+
+var engcDebugRej = os.Getenv("ENGC_DEBUG_REJ") != ""
 
 var engcProgOnce sync.Once
 var engcProgs struct {
@@ -819,6 +823,16 @@ func (w *engcWorld) StepBlock(t *rapid.T, ngroups int) *engcBlockInfo {
 			} else {
 				w.label("txn-rej:" + k)
 			}
+		}
+		if err != nil && engcDebugRej {
+			msg := err.Error()
+			if i := strings.Index(msg, ": "); i >= 0 && strings.HasPrefix(msg, "transaction ") {
+				msg = msg[i+2:]
+			}
+			if len(msg) > 70 {
+				msg = msg[:70]
+			}
+			w.label("why:" + strings.Join(res.Kinds, "+") + ": " + msg)
 		}
 		if err == nil {
 			w.Accepted++
